@@ -10,8 +10,15 @@ import (
 	"path/filepath"
 	"strings"
 
+	"encoding/hex"
+
+	"github.com/cbehopkins/gkvlite"
 	"gkvverif/memfile"
 )
+
+func gkvliteMagicEnd() []byte { return gkvlite.MagicEnd }
+
+func hexs(b []byte) string { return hex.EncodeToString(b) }
 
 // c03: crash images.  For each base history (file-backed, several flushes, values that contain
 // the magic markers and altered copies of earlier root records) every prefix of the ordered file
@@ -70,6 +77,21 @@ func cmdC03(args []string) {
 					for i := 0; i < 6 && n > 1; i++ {
 						cuts = append(cuts, 1+r.Intn(n-1))
 					}
+				}
+			}
+			if k > 0 && muts[k-1].Kind == memfile.Write && isRootRecord(muts[k-1].Data) {
+				// arbitrary junk after a complete root record: marker fragments, a single marker,
+				// doubled markers, copies of the record's own tail, random bytes
+				root := muts[k-1].Data
+				me := string(gkvliteMagicEnd())
+				junks := [][]byte{[]byte(me), []byte(me + me), []byte(me[:5]), []byte(me + "zzzzzz"), []byte("z" + me),
+					root[len(root)-24:], root[len(root)-13:], alterRoot(root, r.Intn(4))}
+				rb := make([]byte, 1+r.Intn(40))
+				r.Read(rb)
+				junks = append(junks, rb, append([]byte(me), rb...))
+				for _, j := range junks {
+					emit(fmt.Sprintf("crashj 1 %d 0 %s", k, hexs(j)))
+					extra["junk_images"]++
 				}
 			}
 			for _, c := range cuts {
